@@ -308,7 +308,7 @@ def jobs(tier):
     return [
         {"name": "hyp-I", "mode": "I", "shards": 10},
         {"name": "hyp-J", "mode": "J", "shards": 4},
-        {"name": "shipped-J", "mode": "J", "shards": 2, "case_timeout": 300},
+        {"name": "shipped-J", "mode": "J", "shards": 2, "case_timeout": 300, "slow_ok": True},
     ]
 
 
